@@ -48,7 +48,7 @@ def gen(rng, ctx):
             nl["bbdefs"]["ff"] = N.DEFAULT_BBS["ff"]
     text = N.render(rng, nl, layout=rng.choice(["free", "free", "writer"]), comments=rng.choice([0.0, 0.05, 0.15]))
     nl.pop("_stats", None)
-    return {"nl": nl, "text": text, "neg": neg, "stats": stats, "dup_parity": dup}
+    return {"nl": nl, "text": text, "neg": neg, "stats": stats, "dup_parity": dup, "name_mode": rng.choice(["exact"] * 8 + ["infer", "wrong"])}
 
 
 def check(case, ctx):
@@ -58,7 +58,19 @@ def check(case, ctx):
     bbs = [cg.BlackBox(t, list(d["inputs"]), list(d["outputs"])) for t, d in sorted(nl["bbdefs"].items())]
     for k, v in case["stats"].items():
         ctx.count(f"expr:{k}", v)
-    ok, c = ctx.call(cg.io.verilog_to_circuit, text, nl["name"], blackboxes=bbs)
+    mode = case.get("name_mode", "exact")
+    if mode == "infer":
+        # a wrong name with infer_module_name=True must fall back to the (only) module of the text
+        ok, c = ctx.call(cg.io.verilog_to_circuit, text, "no_such_module_name", True, bbs)
+        ctx.count("infer_module_name")
+    elif mode == "wrong":
+        ok, c = ctx.call(cg.io.verilog_to_circuit, text, "no_such_module_name", blackboxes=bbs)
+        ctx.count("wrong_module_name")
+        if ok or not isinstance(c, ValueError):
+            ctx.violation("wrong_module_name_accepted", f"a module name that does not occur in the text gave {c!r} instead of ValueError")
+        return
+    else:
+        ok, c = ctx.call(cg.io.verilog_to_circuit, text, nl["name"], blackboxes=bbs)
     if case["neg"]:
         ctx.count(f"neg:{case['neg']}")
         if ok:
@@ -174,6 +186,6 @@ def gates(counters, table, tier):
     for op in ("and", "or", "xor", "xnor", "not"):
         if counters.get(f"expr:{op}", 0) < 50:
             out.append(f"operator {op} generated {counters.get(f'expr:{op}', 0)} times")
-    need = ["expr:tern", "expr:repeated_subexpr", "multi_instance_statement", "pin:unconnected", "pin:omitted", "pin:net", "line_comments", "block_comments", "escaped_names", "lookalike_names"] + [f"neg:{n}" for n in NEG]
+    need = ["infer_module_name", "wrong_module_name", "expr:tern", "expr:repeated_subexpr", "multi_instance_statement", "pin:unconnected", "pin:omitted", "pin:net", "line_comments", "block_comments", "escaped_names", "lookalike_names"] + [f"neg:{n}" for n in NEG]
     out += [f"{k} seen {counters.get(k, 0)} times" for k in need if counters.get(k, 0) < 3]
     return out
